@@ -148,6 +148,61 @@ func checkC07(c *Ctx, r *Report) {
 			r.add("C07.d", "fieldflow", fn+":PlainErrorPresent", "the spec writer is told whether a plain error is returned anywhere", []string{fn}, sites, viol)
 		}
 	}
+
+	// ---- C07.f the IR mirrors the declaration: every declared field is reduced, the metadata
+	// node of a field is the parsed declaration itself, embedding is decided by Go's own rule
+	ruleEach(c, r, "C07.f", "(core/metadata.StructMeta).Reduce",
+		func(fi *FuncInfo) func(ast.Expr) bool { return w.rangeOverField(fi, "core/metadata.StructMeta.Fields") }, "s.Fields",
+		func(fi *FuncInfo) func(ast.Node) bool { return w.callPred(fi, "(core/metadata.FieldMeta).Reduce") }, "field.Reduce", nil, true,
+		"every field of a struct declaration is reduced into the model (no field is skipped by name, kind or visibility)")
+	{
+		viol := ""
+		var sites []string
+		for _, p := range w.Pkgs {
+			for _, f := range p.Syntax {
+				ast.Inspect(f, func(n ast.Node) bool {
+					cl, ok := n.(*ast.CompositeLit)
+					if !ok {
+						return true
+					}
+					t := p.TypesInfo.TypeOf(cl)
+					if nt, ok := derefNamed(t); ok && nt.Obj().Pkg() != nil && nt.Obj().Pkg().Path() == "go/ast" {
+						if _, isStruct := nt.Underlying().(*types.Struct); isStruct {
+							sites = append(sites, w.pos(cl.Pos()))
+							viol = fmt.Sprintf("%s: an ast.%s is fabricated instead of using the parsed node: metadata that is later read off the node (struct tags, doc comments, positions for ranges and symbol keys) is silently lost or detached from the source", w.pos(cl.Pos()), nt.Obj().Name())
+						}
+					}
+					return true
+				})
+			}
+		}
+		if len(sites) == 0 {
+			sites = append(sites, "gleece:0")
+		}
+		r.add("C07.f", "whowrites", "no-fabricated-ast-nodes", "metadata nodes are parsed declarations; gleece never constructs go/ast nodes of its own", []string{"gleece"}, sites, viol)
+	}
+	if fi := need(c, r, "C07.f", "gast.IsEmbeddedOrAnonymousField"); fi != nil {
+		viol := ""
+		reads := map[string]bool{}
+		allInstrs(fi.SSA, true, func(_ *ssa.Function, _ *ssa.BasicBlock, _ int, ins ssa.Instruction) {
+			switch x := ins.(type) {
+			case *ssa.FieldAddr:
+				if v := structFieldVar(x.X.Type(), x.Field); v != nil {
+					reads[v.Name()] = true
+				}
+			case *ssa.TypeAssert:
+				viol = fmt.Sprintf("%s: IsEmbeddedOrAnonymousField inspects the kind of the field's type: in Go a field is embedded iff it has no names, whatever its type expression (T, *T, pkg.T, *pkg.T, G[X])", w.pos(x.Pos()))
+			case ssa.CallInstruction:
+				if nm := calleeName(x); nm != "builtin.len" {
+					viol = fmt.Sprintf("%s: IsEmbeddedOrAnonymousField calls %s", w.pos(x.Pos()), nm)
+				}
+			}
+		})
+		if viol == "" && (len(reads) != 1 || !reads["Names"]) {
+			viol = fmt.Sprintf("IsEmbeddedOrAnonymousField decides on %v instead of on the absence of names alone", keys(reads))
+		}
+		r.add("C07.f", "fieldflow", fi.Key+":no-names", "a field is embedded iff its declaration has no names", []string{fi.Key}, []string{w.pos(fi.Decl.Pos())}, viol)
+	}
 }
 
 // checkAliasWrites implements C07.a.
